@@ -20,6 +20,8 @@ REPLACEMENTS = [
     # length-preserving type confusion: containers whose len() equals a grammar length
     ["a"] * 40, ["a"] * 64, ["a"] * 128, {"k%02d" % i: 0 for i in range(40)}, {"k%02d" % i: 0 for i in range(64)},
     10 ** 400, -(10 ** 400), 2 ** 63, 1e22, 2.5e-300,
+    # names of roles / metadata types that exist around the library but are not supported delegating-metadata types
+    "pkg_mgr", "channeler", "repodata_verify", "root.json", "Root", "timestamp", "snapshot", "targets",
 ]
 
 STR_EDITS = ["drop_last", "append0", "append_space", "prepend_space", "upper", "append_nl", "fullwidth_last", "append_nul",
